@@ -168,7 +168,7 @@ def observe(qc, input_names, ret_names, exprs, sp=None, y_qubit=None):
 
 
 # ------------------------------------------------------------------ forensics for uncompute_all
-def forensics(qc, n_in, sp=None):
+def forensics(qc, n_in, sp=None, preset=None):
     """Align the replay part R appended by uncompute_all with the compute part G and classify the
     first deviation from the ideal final uncompute (DESIGN 5.3).  -> list of (kind, gate_index, classes)"""
     P = LOG.get("ua_pre_len")
@@ -180,7 +180,7 @@ def forensics(qc, n_in, sp=None):
     anc0 = LOG.get("ua_anc_entry", set())
     G = qc.gates[:P]
     R = qc.gates[P:]
-    st = revsim.initial_state(qc.num_qubits, n_in, sp)
+    st = revsim.initial_state(qc.num_qubits, n_in, sp, preset)
     cv = {}
     ALL = sp.ALL
     reuse_at = {}
@@ -220,7 +220,9 @@ def forensics(qc, n_in, sp=None):
             if c != cv[i]:
                 cls = set()
                 for q in w[:-1]:
-                    inl = [e for e in LOG.get("inline", []) if q in e[2] and e[0] > i]
+                    # q is reset after gate i by a gate of an inline uncompute() batch that returned q
+                    inl = [e for e in LOG.get("inline", []) if q in e[2] and e[1] > i
+                           and any(G[j][1] and G[j][1][-1] == q for j in range(max(i + 1, e[0]), min(e[1], P)))]
                     later_keep = q in keep and any(G[j][1] and G[j][1][-1] == q for j in range(i + 1, P) if revsim.gate_kind(G[j][0]) != "nop")
                     if inl:
                         cls.add("ii-a")
